@@ -2814,6 +2814,7 @@ BOOL binn_set_string(binn *item, const char *str, size_t len) {
   if (item->ptr == NULL) {
     return FALSE;
   }
+  item->size = (int) strlen(item->ptr);
   item->freefn = free_fn;
   item->type = BINN_STRING;
   return TRUE;
